@@ -62,6 +62,14 @@ fn check_arrangement(ctx: &mut Ctx, case: u64, what: &str, dir: &Path, entry: &P
         let k = got.iter().zip(expected.iter()).position(|(a, b)| a != b).unwrap_or(std::cmp::min(got.len(), expected.len()));
         ctx.fail(case, &format!("dump-{}", what.split(':').next().unwrap()), &format!("{}: line {} reads `{}` expected `{}`", what, k, got.get(k).map(|s| s.as_str()).unwrap_or("<none>").chars().take(160).collect::<String>(), expected.get(k).map(|s| s.as_str()).unwrap_or("<none>").chars().take(160).collect::<String>()));
     }
+    // the same logical content whatever the order in which the packs are first touched
+    for order in 1..=3u8 {
+        let g = container::dump_in_order(entry, order);
+        if g != expected {
+            let k = g.iter().zip(expected.iter()).position(|(a, b)| a != b).unwrap_or(std::cmp::min(g.len(), expected.len()));
+            ctx.fail(case, &format!("dump-access-order-{}", what.split(':').next().unwrap()), &format!("{} read in {}: line {} reads `{}` expected `{}`", what, ["", "reverse entry order", "highest pack id first", "lowest pack id first"][order as usize], k, g.get(k).map(|s| s.as_str()).unwrap_or("<none>").chars().take(160).collect::<String>(), expected.get(k).map(|s| s.as_str()).unwrap_or("<none>").chars().take(160).collect::<String>()));
+        }
+    }
     let decdir = dir.join("_dec");
     // (a sub-directory: not part of the FS the model sees)
     container::dump_all_clusters(dir, &decdir);
